@@ -49,6 +49,9 @@ def build_harness(sync=False):
 
 def run_harness(args, timeout=3600, sync=False, env=None):
     exe = HARNESS_SYNC if sync else HARNESS
+    # tools/coverage: an instrumented copy of the default-feature harness (never set by registered commands)
+    if not sync and os.environ.get("VERIF_HARNESS_BIN"):
+        exe = os.environ["VERIF_HARNESS_BIN"]
     e = dict(os.environ)
     if env:
         e.update(env)
